@@ -21,6 +21,10 @@ theorem ym_of_normal (Y M y m : Int) (h1 : 1 ≤ m) (h2 : m ≤ 12) (h : 12 * Y 
     Gen.ym Y M = (y, m) := by
   unfold Gen.ym; simp only [Prod.mk.injEq]; omega
 
+/-- `ym` depends on the month count `12*y + m` only -/
+theorem ym_congr (Y M Y' M' : Int) (h : 12 * Y + M = 12 * Y' + M') : Gen.ym Y M = Gen.ym Y' M' := by
+  unfold Gen.ym; simp only [Prod.mk.injEq]; omega
+
 /-- `(t.year, t.month, t.day)` of a date built from valid fields: any year 1..9999 -/
 theorem ymdOf_mkDate (y m d : Nat) (v : Valid y m d) : ymdOf (mkDate y m d) = ⟨y, m, d⟩ := by
   unfold ymdOf mkDate
@@ -68,5 +72,48 @@ theorem mkMonthPlus_day (y m d : Nat) (hy : 1 ≤ y ∧ y < 9999) (hm : 1 ≤ m 
       have e : ((ord y m 1 : Nat) : Int) + ((d : Int) - 1) = ((ord (y + 1) 1 (d - dim y m) : Nat) : Int) := by
         unfold ord at *; omega
       rw [e]; exact checkRange_mkDate _ _ _ v
+
+/-- `datetime(y, m, 1) + (d - 1) days` for a day every month has (d ≤ 28), any year 1..9999 -/
+theorem mkMonthPlus_small (y m d : Nat) (hy : 1 ≤ y ∧ y ≤ 9999) (hm : 1 ≤ m ∧ m ≤ 12) (hd : 1 ≤ d ∧ d ≤ 28) :
+    mkMonthPlus ⟨y, m, (d : Int) - 1⟩ = .ok (mkDate y m d) := by
+  unfold mkMonthPlus
+  have hc : (1 : Int) ≤ (y : Int) ∧ (y : Int) ≤ 9999 ∧ (1 : Int) ≤ (m : Int) ∧ (m : Int) ≤ 12 := by omega
+  simp only [hc, and_self, if_true, Int.toNat_natCast]
+  have hb := dim_bounds y m hm.1 hm.2
+  have v : Valid y m d := by unfold Valid; omega
+  have e : ((ord y m 1 : Nat) : Int) + ((d : Int) - 1) = ((ord y m d : Nat) : Int) := by unfold ord; omega
+  rw [e]; exact checkRange_mkDate y m d v
+
+/-- a month / year step from a day of month ≤ 28 at midnight, any start date: it succeeds iff the target year is 1..9999 and
+then keeps the day of month -/
+theorem ymdShift_small (y m d : Nat) (v : Valid y m d) (hd : d ≤ 28) (dy dm r : Int) :
+    applyStep (mkDate y m d) (.ymdShift dy dm) = .ok r ↔
+      ∃ y' m' : Nat, Gen.ym ((y : Int) + dy) ((m : Int) + dm) = ((y' : Int), (m' : Int)) ∧ 1 ≤ y' ∧ y' ≤ 9999 ∧
+        1 ≤ m' ∧ m' ≤ 12 ∧ r = mkDate y' m' d := by
+  have hv := v
+  unfold Valid at hv
+  simp only [applyStep, ymdOf_mkDate y m d v, ymdDate]
+  rw [ymd_small_day _ _ _ (by omega)]
+  have hn : 1 ≤ (Gen.ym ((y : Int) + dy) ((m : Int) + dm)).2 ∧ (Gen.ym ((y : Int) + dy) ((m : Int) + dm)).2 ≤ 12 := by
+    unfold Gen.ym; simp only []; omega
+  generalize Gen.ym ((y : Int) + dy) ((m : Int) + dm) = p at hn
+  obtain ⟨Y, M⟩ := p
+  simp only at hn ⊢
+  constructor
+  · intro h
+    by_cases hY : 1 ≤ Y ∧ Y ≤ 9999
+    · refine ⟨Y.toNat, M.toNat, by rw [Int.toNat_of_nonneg (by omega), Int.toNat_of_nonneg (by omega)], by omega, by omega, by omega, by omega, ?_⟩
+      have e : (⟨Y, M, (d : Int) - 1⟩ : MonthPlus) = ⟨(Y.toNat : Int), (M.toNat : Int), (d : Int) - 1⟩ := by
+        rw [Int.toNat_of_nonneg (by omega), Int.toNat_of_nonneg (by omega)]
+      rw [e, mkMonthPlus_small Y.toNat M.toNat d (by omega) (by omega) (by omega)] at h
+      cases h; rfl
+    · unfold mkMonthPlus at h
+      have : ¬ (1 ≤ Y ∧ Y ≤ 9999 ∧ 1 ≤ M ∧ M ≤ 12) := by omega
+      simp only [this, if_false] at h
+      cases h
+  · intro ⟨y', m', e, h1, h2, h3, h4, hr⟩
+    simp only [Prod.mk.injEq] at e
+    rw [e.1, e.2, hr]
+    exact mkMonthPlus_small y' m' d ⟨h1, h2⟩ ⟨h3, h4⟩ (by omega)
 
 end Pyg.Bump
